@@ -10,13 +10,14 @@ from tola.assembly.build_utils import FoundFragment
 
 
 def conserve(specs, groups, tf, fasta_like=False):
-    START()
+    model_setup(specs, groups, tf, 0, None, None)
     inp, layout = mk_input(specs, fasta_like)
     prtxt = mk_pretext(groups, tf)
     try:
         ba, outs = run_pipeline(inp, prtxt)
     except ALLOWED_ERRORS:
         return FIN(True)                # "ends in an error" is allowed; any other exception type is a counterexample
+    LAST["outs"] = outs
     ok = partition_ok(inp, outs)
     for k, asm in outs.items():
         ok = AND(ok, agp_valid(fmt_agp(asm), asm.scaffolds))     # C06 on every remapper output
@@ -133,7 +134,7 @@ def conditions(tier):
     q.append(("qc_three_pieces", gen_qc(3), "qc_3", 900, "qc_sub_fragments on 3 arbitrary pieces"))
     src_q = HEAD + "".join(x[1] for x in q)
     for (n, _, fn, to, bound) in q:
-        out.append(Cond(n, src_q, fn, to, bound, encodes=ENC))
+        out.append(Cond(n, src_q, fn, to, bound, replay="" if fn.startswith("qc_") else "replay_model", encodes=ENC))
 
     t = []
     t.append(("two_arbitrary_pieces_single_contig", gen_arbitrary("arb2_F", [("S1", "F")], [(0, "S1"), (0, "S1")]), "arb2_F", 3000,
@@ -164,7 +165,7 @@ def conditions(tier):
               "the same arbitrary piece listed twice (two Pretext scaffolds)"))
     src_t = HEAD + "".join(x[1] for x in t)
     for (n, _, fn, to, bound) in t:
-        out.append(Cond(n, src_t, fn, to, bound, tier="thorough", encodes=ENC))
+        out.append(Cond(n, src_t, fn, to, bound, tier="thorough", replay="replay_model", encodes=ENC))
 
     # the 100-region sweep: two arbitrary pieces on F G F
     regs = _regions_fgf()
@@ -176,10 +177,12 @@ def conditions(tier):
     for (nm, _, key) in parts:
         out.append(Cond("two_arbitrary_pieces_FGF_region_" + "".join(map(str, key)), src_r, nm, 3000,
                         "input F G F (forward contigs, lengths unbounded), two arbitrary pieces (+,-) in two Pretext scaffolds; region: the row "
-                        f"(0 contig, 1 gap, 2 contig, 3 beyond) of a0,b0,a1,b1 = {key}", tier="thorough", encodes=ENC))
+                        f"(0 contig, 1 gap, 2 contig, 3 beyond) of a0,b0,a1,b1 = {key}", tier="thorough", replay="replay_model", encodes=ENC))
     out.append(Lemma("region_split_is_complete", lemma_regions_cover, "z3: the 100 regions cover 1<=a0<=b0, 1<=a1<=b1", tier="thorough"))
     return out
 
+
+from vlib.props.pgen import replay_model  # noqa: E402,F401
 
 BOUNDS = ["<= 2 input scaffolds of <= 5 rows; <= 3 Pretext pieces (model maps: <= 2 cuts); all lengths, coordinates and the texel unbounded symbolic",
           "cutting QC: arbitrary lists of <= 3 pieces"]
